@@ -126,6 +126,7 @@ func runC01(w *vx.W) {
 	c01DevFields(c)
 	c01Chains(c)
 	c01Substitutions(c)
+	c01LyingSizes(c)
 	c01Definitions(c)
 }
 
@@ -886,6 +887,80 @@ func c01Corpus(c *c01ctx) {
 				c.call("CheckIntegrityHeaderOnly", it.b[:cut], 0)
 			}
 			w.Fam("d:corpus-cuts", 1)
+		}
+	}
+}
+
+// (h) headers that lie about the data size: every declared size from 0 to past the end, on streams with long fields
+// (a 200-byte array, 40-byte strings, 100 bytes of developer data), so that the declared end falls inside a field,
+// inside a record header, inside a definition; header CRC right or absent; followed by nothing, by the rest of the
+// original bytes, or by another valid file; whole-buffer, 1-, 3- and 17-byte reads.
+func c01LyingSizes(c *c01ctx) {
+	w := c.w
+	long := fitmodel.Def{Local: 1, Global: 0xFF00, Fields: []fitmodel.FieldDef{{Num: 0, Size: 200, Base: fitmodel.Byte}, {Num: 1, Size: 2, Base: fitmodel.Uint16}}}
+	str := fitmodel.Def{Local: 2, Big: true, Global: 12, Fields: []fitmodel.FieldDef{{Num: 3, Size: 40, Base: fitmodel.String}, {Num: 0, Size: 1, Base: fitmodel.Enum}}}
+	dev := fitmodel.Def{Local: 3, Global: 20, Fields: []fitmodel.FieldDef{{Num: 3, Size: 1, Base: fitmodel.Uint8}}, DevFlag: true, Dev: []fitmodel.DevDef{{Num: 0, Size: 100, Idx: 0}}}
+	fill := func(n int, b byte) []byte {
+		p := make([]byte, n)
+		for i := range p {
+			p[i] = b + byte(i)
+		}
+		return p
+	}
+	sp := append([]byte("a sport name that is fairly long"), make([]byte, 8)...)
+	bases := [][]byte{
+		fitmodel.File(fitmodel.DefaultHeader, append(fitmodel.FileIdRecords(0, 4), long.Bytes(), fitmodel.Data(1, fill(202, 1)), fitmodel.Data(1, fill(202, 7)))...),
+		fitmodel.File(hdr12(), append(fitmodel.FileIdRecords(0, 3), str.Bytes(), fitmodel.Data(2, append(sp, 2)), fitmodel.Data(2, append(sp, 1)))...),
+		fitmodel.File(fitmodel.DefaultHeader, append(fitmodel.FileIdRecords(0, 4), dev.Bytes(), fitmodel.Data(3, fill(101, 3)), recordDef(4, false).Bytes(), recordData(4, false, 1000000000, 60, 9))...),
+	}
+	var idx int64
+	for bi, base := range bases {
+		hs := int(base[0])
+		dataLen := len(base) - hs - 2
+		for D := 0; D <= dataLen+20; D++ {
+			for crcMode := 0; crcMode < 2; crcMode++ {
+				if hs == 12 && crcMode == 1 {
+					continue
+				}
+				idx++
+				if !w.Mine(idx) {
+					continue
+				}
+				b := append([]byte{}, base...)
+				b[4], b[5], b[6], b[7] = byte(D), byte(D>>8), byte(D>>16), byte(D>>24)
+				if hs == 14 {
+					if crcMode == 0 {
+						cc := fitmodel.CRC(b[:12])
+						b[12], b[13] = byte(cc), byte(cc>>8)
+					} else {
+						b[12], b[13] = 0, 0
+					}
+				}
+				// (i) the rest of the original bytes follow; (ii) exactly D data bytes + a right file CRC, then a valid file;
+				// (iii) cut right after the declared data
+				variants := [][]byte{b}
+				if D <= dataLen {
+					exact := append([]byte{}, b[:hs+D]...)
+					cc := fitmodel.CRC(exact)
+					exact = append(exact, byte(cc), byte(cc>>8))
+					variants = append(variants, fitmodel.Concat(exact, sMin12.B), b[:hs+D])
+				}
+				for vi, v := range variants {
+					for _, chunk := range []int{0, 1, 3, 17} {
+						c.call("Decode", v, chunk)
+						c.call("DecodeChained", v, chunk)
+						if chunk <= 1 {
+							c.call("CheckIntegrity", v, chunk)
+							c.call("DecodeHeaderAndFileID", v, chunk)
+						}
+						if vi == 0 && chunk == 1 {
+							c.call("Decode+options", v, chunk)
+						}
+					}
+					w.Fam("h:lying-data-size", 1)
+					w.DistinctS(fmt.Sprintf("lie/%d/%d/%d", bi, vi, D*1000/(dataLen+1)/100))
+				}
+			}
 		}
 	}
 }
